@@ -551,7 +551,8 @@ class Bptk:
             self.b.destroy()
         threading.excepthook = self.hook
 
-    def register(self, case):
+    def register(self, case, second=None):
+        """one manager with scenario `sc` (and `sc2` when a second case is given: same model class and script, own population / stop time)"""
         self.n += 1
         nm = f"smC13x{self.n}"
         m = model_class()(name="c13")
@@ -559,21 +560,25 @@ class Bptk:
         m._mid = {int(k): v for k, v in case.get("mid", {}).items()}
         m._snaps = {}
         # the initial population is created by begin of time: configure() wipes agents, so put it into the scenario
-        agents = [{"name": TYPES[ty], "count": 1, "properties": props_dict(vals)} for ty, vals in case["pop"]]
+        def scen(c):
+            return {"runspecs": {"starttime": 1, "stoptime": c["stop"], "dt": 1}, "properties": {},
+                    "agents": [{"name": TYPES[ty], "count": 1, "properties": props_dict(vals)} for ty, vals in c["pop"]]}
+        scenarios = {"sc": scen(case)}
+        if second is not None:
+            scenarios["sc2"] = scen(second)
         with contextlib.redirect_stdout(self.buf):
-            self.b.register_scenario_manager({nm: {"type": "abm", "model": m, "scenarios": {"sc": {
-                "runspecs": {"starttime": 1, "stoptime": case["stop"], "dt": 1}, "properties": {}, "agents": agents}}}})
+            self.b.register_scenario_manager({nm: {"type": "abm", "model": m, "scenarios": scenarios}})
         return nm
 
-    def query(self, nm, sel, fmt):
+    def query(self, nm, sel, fmt, scenarios=("sc",)):
         with contextlib.redirect_stdout(self.buf):
-            return self.b.run_scenarios(scenarios=["sc"], scenario_managers=[nm], agents=list(sel["agents"]),
+            return self.b.run_scenarios(scenarios=list(scenarios), scenario_managers=[nm], agents=list(sel["agents"]),
                                         agent_states=list(sel["states"]), agent_properties=list(sel["props"]),
                                         agent_property_types=list(sel["aggs"]), equations=[], series_names={},
                                         progress_bar=False, return_format=fmt)
 
 
-def cells_of(res, fmt, nm, sel, times):
+def cells_of(res, fmt, nm, sel, times, sc="sc"):
     """returned object -> {(agent, state, prop|None, agg|None, t): value}; a cell that is not there counts as 0."""
     out = {}
     if res is None:           # "no output data": every selected cell is absent, i.e. counts as 0
@@ -596,18 +601,18 @@ def cells_of(res, fmt, nm, sel, times):
                     for p in sel["props"]:
                         for agg in sel["aggs"]:
                             if fmt == "df":
-                                col = f"{nm}_sc_{ag}_{st}_{p}_{agg}"
+                                col = f"{nm}_{sc}_{ag}_{st}_{p}_{agg}"
                                 v = float(res[col][t]) if (col in res.columns and t in res.index) else 0.0
                             else:
-                                node = res.get(nm, {}).get("sc", {}).get("agents", {}).get(ag, {}).get(st, {}).get("properties", {}).get(p, {})
+                                node = res.get(nm, {}).get(sc, {}).get("agents", {}).get(ag, {}).get(st, {}).get("properties", {}).get(p, {})
                                 v = series_get(node[agg], t) if agg in node else 0.0
                             out[(ag, st, p, agg, t)] = v
                 else:
                     if fmt == "df":
-                        col = f"{nm}_sc_{ag}_{st}"
+                        col = f"{nm}_{sc}_{ag}_{st}"
                         v = float(res[col][t]) if (col in res.columns and t in res.index) else 0.0
                     else:
-                        node = res.get(nm, {}).get("sc", {}).get("agents", {}).get(ag, {})
+                        node = res.get(nm, {}).get(sc, {}).get("agents", {}).get(ag, {})
                         v = series_get(node[st], t) if st in node else 0.0
                     out[(ag, st, None, None, t)] = v
     return out
@@ -736,6 +741,77 @@ def session_check(bp, case, sel, req, real_lines):
         with contextlib.redirect_stdout(bp.buf):
             bp.b.end_session()
     return steps, first
+
+
+def two_scenario_check(bp, case, second, sel, req, real_lines):
+    """wave 6: two scenarios of one manager in ONE run_scenarios call (own populations, own stop times): every selected cell of either
+    scenario must be the number of that scenario's population at that time, in df, dict and json; the model treats each scenario as its
+    own run (hadd/run/read). Returns None or (key, text, replay)."""
+    nm = bp.register(case, second)
+    first = None
+    results = {}
+    for fmt in ("df", "dict", "json"):
+        try:
+            results[fmt] = bp.query(nm, sel, fmt, scenarios=("sc", "sc2"))
+        except Exception as e:
+            return ("run_scenarios-raises", f"run_scenarios(scenarios=['sc','sc2'], agents={sel['agents']}, agent_states={sel['states']}, "
+                    f"agent_properties={sel['props']}, agent_property_types={sel['aggs']}, return_format={fmt!r}) raises {type(e).__name__}: {e}",
+                    {"case": case, "second": second, "selection": sel, "format": fmt})
+    for sc in ("sc", "sc2"):
+        with contextlib.redirect_stdout(bp.buf):
+            snaps = bp.b.get_scenario(nm, sc)._snaps
+        times = sorted(snaps)
+        if not times:
+            continue
+        req.append("hclear"); real_lines.append("ok")
+        for t in times:
+            req.append(f"hadd {int(t)} {enc_pop(snaps[t])}"); real_lines.append("ok")
+        for fmt in ("df", "dict", "json"):
+            cells = cells_of(results[fmt], fmt, nm, sel, times, sc=sc)
+            for (ag, st, p, agg, t), v in cells.items():
+                want = ref_cell(snaps[t], TYPES.index(ag), STATES.index(st), p, agg)
+                if want is not None and v != float(want) and first is None:
+                    what = f"{agg} of {p}" if p else "count"
+                    first = ("run_scenarios-cell", f"run_scenarios(scenarios=['sc','sc2'], agents={sel['agents']}, ..., return_format={fmt!r}) reports "
+                             f"{what} = {v!r} for scenario {sc}, {ag}/{st} at t={t}, the population gives {want!r}",
+                             {"case": case, "second": second, "selection": sel, "format": fmt})
+            emit_run_reads(req, real_lines, fmt, sel, cells)
+    return first
+
+
+def gen_flux_case(rng):
+    """wave 6: agent types appear and disappear during the run: at some recorded times a type has no agent at all (no row for it), the
+    first listed type is absent while a later listed one is present, and vice versa."""
+    tprops = {0: ["x", "k"], 1: ["x", "k"]}
+    stop = rng.range(3, 6)
+    mk = lambda ty: (ty, [("x", gen_value(rng, "x")), ("k", gen_value(rng, "k"))])
+    first_ty = rng.below(2)
+    pop = [mk(first_ty) for _ in range(rng.range(1, 2))]
+    ids = {first_ty: list(range(len(pop))), 1 - first_ty: []}
+    nxt = len(pop)
+    script = {}
+    for t in range(1, stop + 1):
+        ops = []
+        for ty in (0, 1):
+            r = rng.below(4)
+            if r == 0 and ids[ty]:                       # the whole type disappears
+                ops += [["delete", i] for i in ids[ty]]; ids[ty] = []
+            elif r == 1 or (r == 2 and not ids[ty]):     # an agent of the type appears
+                ops.append(["create", ty, mk(ty)[1]]); ids[ty].append(nxt); nxt += 1
+            elif ids[ty]:
+                ops.append(["state", rng.choice(ids[ty]), rng.below(3)])
+        script[str(t)] = ops
+    return {"stop": stop, "pop": pop, "script": script, "tprops": {str(k): v for k, v in tprops.items()}, "homogeneous": True, "flux": True}
+
+
+def both_orders(sels):
+    """every request that names both agent types also with the types listed the other way round"""
+    out = []
+    for sel in sels:
+        out.append(sel)
+        if len(sel["agents"]) > 1:
+            out.append(dict(sel, agents=list(reversed(sel["agents"]))))
+    return out
 
 
 def shrink_bptk(key, rp):
@@ -922,10 +998,14 @@ def run(chk):
     # ---- (B) through bptk.run_scenarios, three formats, generated selections
     nb = 24 if chk.quick else 300
     bdist = {"scenarios": 0, "selections": 0, "count_mode": 0, "property_mode": 0, "sessions": 0, "session_steps": 0,
-             "gap_scenarios": 0, "inner_gaps_state_time": 0, "times_all_selected_states_empty": 0}
+             "gap_scenarios": 0, "flux_scenarios": 0, "multi_type_selections": 0, "two_scenario_calls": 0, "inner_gaps_state_time": 0, "times_all_selected_states_empty": 0}
     with Bptk() as bp:
         for bi in range(nb):
-            if bi % 2 == 1:          # wave 4: states that empty at an interior recorded time and are occupied again later
+            if bi % 4 == 3:          # wave 6: types appearing / disappearing, both types requested, both listing orders
+                case = gen_flux_case(rng)
+                sels = [dict(gen_selection(rng, case), agents=rng.shuffle(["a", "b"])) for _ in range(2)]
+                bdist["flux_scenarios"] += 1
+            elif bi % 2 == 1:          # wave 4: states that empty at an interior recorded time and are occupied again later
                 case = gen_gap_case(rng)
                 sels = [gap_selection(rng, case) for _ in range(3)]
                 bdist["gap_scenarios"] += 1
@@ -933,6 +1013,8 @@ def run(chk):
                 case = (gen_edge_case(rng) if bi % 6 == 4 else gen_mid_case(rng, small=True, allow_reset=False) if bi % 6 == 2
                         else gen_case(rng, homogeneous=True, small=True))
                 sels = [gen_selection(rng, case) for _ in range(3)]
+            sels = both_orders(sels)
+            bdist["multi_type_selections"] += sum(1 for s_ in sels if len(s_["agents"]) > 1)
             bdist["scenarios"] += 1
             bdist["selections"] += len(sels)
             bdist["count_mode"] += sum(1 for s in sels if not s["props"])
@@ -940,7 +1022,17 @@ def run(chk):
             n0 = len(req)
             v = bptk_check(bp, case, sels, req, real_lines)
             # the same scenario as a stepwise session (begin_session / run_step -> HybridRunner.run_scenario_step)
-            nsteps, v2 = session_check(bp, case, sels[bi % 3], req, real_lines)
+            nsteps, v2 = session_check(bp, case, sels[bi % len(sels)], req, real_lines)
+            if bi % 4 in (0, 3):     # wave 6: two scenarios in one call
+                second = gen_flux_case(rng) if bi % 4 == 3 else gen_gap_case(rng)
+                second = dict(second, script={}, mid={})      # sc2 runs the same script as sc (one model); only its population / stop differ
+                second["stop"] = case["stop"] + rng.range(-1, 1) if case["stop"] > 1 else case["stop"]
+                msel = next((s_ for s_ in sels if len(s_["agents"]) > 1), sels[0])
+                if all(p_ in second["tprops"][str(TYPES.index(a_))] and p_ in case["tprops"][str(TYPES.index(a_))]
+                       for p_ in msel["props"] for a_ in msel["agents"]):
+                    v3 = two_scenario_check(bp, case, second, msel, req, real_lines)
+                    bdist["two_scenario_calls"] += 1
+                    v2 = v2 or v3
             bdist["sessions"] += 1
             bdist["session_steps"] += nsteps
             owner += [("bptk", case, sels)] * (len(req) - n0)
@@ -993,7 +1085,7 @@ def run(chk):
             small = shrink_stat_case(rp["case"])
             m = new_model(small); m.run()
             text, rp = check_statistics(m) or text, {"case": small}
-        elif "selection" in rp:
+        elif "selection" in rp and rp.get("second") is None:
             try:
                 sm = shrink_bptk(key, rp)
             except Exception:
@@ -1025,7 +1117,9 @@ def replay(path):
         return 1
     if "selection" in r:
         with Bptk() as bp:
-            if r.get("format") == "session":
+            if r.get("second") is not None:
+                v = two_scenario_check(bp, case, r["second"], r["selection"], [], [])
+            elif r.get("format") == "session":
                 v = session_check(bp, case, r["selection"], [], [])[1]
             else:
                 v = bptk_check(bp, case, [r["selection"]], [], [])
